@@ -4,7 +4,7 @@ from ..common import Run
 
 def run(tier, seed):
     run = Run('C11', tier, seed, 'model_checking')
-    for family in ('data', 'meta'):
+    for family in ('data', 'meta', 'ctx'):
         arrayhist.run_family(run, 'C11', tier, seed, family)
     run.cov['rule'] = ('Array: every mutating macro-edge leaving a mode-r state of the TLC graph of spec/Array.tla is '
                        'executed with a recursive byte snapshot before/after; paths r-call, SetMode(r+), same call.')
